@@ -103,7 +103,7 @@ pub trait RiRefImpl {
 		if self.path().is_absolute() == other.path().is_absolute() {
 			loop {
 				match (self_segments.peek(), base_segments.peek()) {
-					(Some(a), Some(b)) if a.as_pct_str() == b.as_pct_str() => {
+					(Some(a), Some(b)) if a.as_pct_str().bytes().eq(b.as_pct_str().bytes()) => {
 						base_segments.next();
 						self_segments.next();
 					}
@@ -209,17 +209,16 @@ pub trait RiRefBufImpl: Sized + RiRefImpl {
 			},
 			None => {
 				if let Some(scheme_range) = parse::find_scheme(self.as_bytes(), 0) {
-					let value: &[u8] =
-						if self.authority().is_none()
-							&& parse::first_segment_has_colon(self.path().as_bytes())
-						{
-							// AMBIGUITY: The URI `http:foo:bar` would become
-							//            `foo:bar`, but `foo` is not the scheme.
-							// SOLUTION:  We change `foo:bar` to `./foo:bar`.
-							b"./"
-						} else {
-							b""
-						};
+					let value: &[u8] = if self.authority().is_none()
+						&& parse::first_segment_has_colon(self.path().as_bytes())
+					{
+						// AMBIGUITY: The URI `http:foo:bar` would become
+						//            `foo:bar`, but `foo` is not the scheme.
+						// SOLUTION:  We change `foo:bar` to `./foo:bar`.
+						b"./"
+					} else {
+						b""
+					};
 
 					unsafe { self.replace(scheme_range.start..(scheme_range.end + 1), value) }
 				}
